@@ -216,6 +216,12 @@ ExpRejects(ps, t, key) ==
 NbfRejects(ps, t, key) ==
   (ps.valid["nbf"] = "nbfdflt" /\ ModelObs(ps, t, key).res = "ok") => AtClock(t.claims["nbf"], ps.clock) \in {"absent", "null", "past"}
 
+\* C05 / C06 at the parser layers: an unaltered token passes authentication iff the key and the footer and
+\* (v3 / v4) implicit assertion configured LAST on the parser match those it was minted with - an empty
+\* string counts as none, and setting the empty string replaces an earlier value
+FooterAssertionIff(ps, t, key) ==
+  (t.e = NoEdit) => (Authentic(ps, t, key) <=> Matches(t.o, ps.pr, key, ps.footer, ps.assertion))
+
 \* the code-shaped outcome is one of the allowed observations
 ModelAllowed(ps, t, key) == ParseAllowed(ps, t, key, ModelObs(ps, t, key))
 =============================================================================
